@@ -132,3 +132,56 @@ static inline std::string gen_text_buffer(Rng& rng, const std::string& plants, s
   while (b.size() < min_size) b += filler[rng.below(fl)];
   return b;
 }
+
+// ------------------------------------------------------------- lab cases ----
+// A generated rule set (1-3 namespaces, optional externals of all four types,
+// random global/private flags, optional rule references) plus the buffers it
+// is exercised on.  Needs yru.h (CompileSpec) to be included first.
+#ifdef YR_YARA_H
+struct LabCase { CompileSpec spec; std::vector<std::string> buffers; std::vector<std::string> buffer_names; std::string desc; };
+
+static inline std::string ext_probe_rules() {
+  return "rule x_int { condition: ext_i == 42 }\nrule x_int_arith { condition: ext_i * 2 + 1 == 85 }\nrule x_bool { condition: ext_b }\n"
+         "rule x_float { condition: ext_f > 2.0 and ext_f < 3.0 }\nrule x_str { condition: ext_s contains \"needle\" and ext_s matches /ne+dle$/ }\n"
+         "rule x_at { strings: $a = \"EXTMARK\" condition: $a at ext_off }\nrule x_in { strings: $a = \"EXTMARK\" condition: $a in (ext_off..ext_off + 2) }\n"
+         "rule x_of { strings: $a = \"of_one\" $b = \"of_three\" $c = \"EXTMARK\" condition: ext_n of them }\n";
+}
+static inline void add_default_externals(CompileSpec& s) {
+  s.externals.push_back({"ext_i", 'i', 42, 0, ""}); s.externals.push_back({"ext_b", 'b', 1, 0, ""});
+  s.externals.push_back({"ext_f", 'f', 0, 2.5, ""}); s.externals.push_back({"ext_s", 's', 0, 0, "hay needle"});
+  s.externals.push_back({"ext_off", 'i', 5, 0, ""}); s.externals.push_back({"ext_n", 'i', 2, 0, ""});
+}
+
+static inline LabCase gen_labcase(Rng& rng, int max_rules, bool modules, bool externals, bool flags) {
+  LabCase lc;
+  int nns = 1 + (int) rng.below(3);
+  int n = 1 + (int) rng.below(max_rules);
+  std::vector<GenSet> sets(nns);
+  std::string plants;
+  for (int k = 0; k < n; k++) {
+    int f;
+    do { f = (int) rng.below(NFRAGS); } while (!modules && *FRAGS[f].import);
+    GenRule r; r.frag = f; r.name = "r" + std::to_string(k) + "_" + FRAGS[f].name;
+    int ns = (int) rng.below(nns);
+    if (flags && rng.chance(1, 10)) r.is_private = true;
+    if (flags && rng.chance(1, 14) && !frag_has_tag(FRAGS[f], "none") && !frag_has_tag(FRAGS[f], "not")) r.is_global = true;
+    // reference to an earlier rule of the same namespace
+    if (!sets[ns].rules.empty() && rng.chance(1, 5)) { const GenRule& prev = sets[ns].rules[rng.below(sets[ns].rules.size())]; if (!prev.is_global) r.extra_cond = std::string(rng.chance(1, 2) ? "or " : "and not ") + prev.name; }
+    sets[ns].rules.push_back(r);
+    if (!r.is_global || rng.chance(3, 4)) { plants += unescape(FRAGS[f].plant); plants += " ~ "; }
+  }
+  if (externals) add_default_externals(lc.spec);
+  for (int i = 0; i < nns; i++) {
+    if (sets[i].rules.empty() && !(externals && i == 0)) continue;
+    std::string src = sets[i].source();
+    if (externals && i == 0) src += ext_probe_rules();
+    lc.spec.sources.push_back({i == 0 ? "" : "ns" + std::to_string(i), src});
+  }
+  lc.desc = std::to_string(n) + " rules/" + std::to_string(nns) + " ns" + (externals ? "+ext" : "");
+  std::string text = "HEAD_EXTMARK " + gen_text_buffer(rng, plants, 600 + rng.below(3000));
+  lc.buffers.push_back(text); lc.buffer_names.push_back("text+plants");
+  lc.buffers.push_back(""); lc.buffer_names.push_back("empty");
+  lc.buffers.push_back(gen_text_buffer(rng, "", 300)); lc.buffer_names.push_back("text-noplants");
+  return lc;
+}
+#endif
